@@ -595,6 +595,16 @@ func (f *SQLFormatter) formatJoin(join *ast.JoinClause) error {
 
 	if join.Condition != nil {
 		f.builder.WriteString(" ")
+		if cols, ok := join.Condition.(*ast.ListExpression); ok {
+			// USING (a, b) is stored as a column list
+			f.writeKeyword("USING")
+			f.builder.WriteString(" (")
+			if err := f.formatExpression(cols); err != nil {
+				return err
+			}
+			f.builder.WriteString(")")
+			return nil
+		}
 		f.writeKeyword("ON")
 		f.builder.WriteString(" ")
 		if err := f.formatExpression(join.Condition); err != nil {
